@@ -1,7 +1,7 @@
 (* C08 — password gate: nothing but AUTH runs before the exact password was presented.  Property theorems only.
    All for an ARBITRARY application handler and EVERY interleaving of the requests of any number of connections. *)
 From Coq Require Import String.
-From GR Require Import Base Resp Handler Exec Conn Multi ConnFacts LoopFacts MultiFacts.
+From GR Require Import Base Resp Handler Exec Conn Multi ConnFacts LoopFacts MultiFacts MultiTLS.
 
 Section C08.
   Variable hstate : Type.
@@ -43,7 +43,18 @@ Section C08.
   Theorem C08_per_connection : forall (m : msys hstate) o j, op_conn o <> j ->
     nth_error (ms_conns _ (mstep hstate handle regexp_src fw_text m o)) j = nth_error (ms_conns _ m) j.
   Proof. exact (mstep_frame hstate handle regexp_src fw_text). Qed.
+
+  (* the gate for EVERY transport and every further authenticator: connections that are plain or TLS with any verified
+     certificate chain, a server whose authenticators include the password authenticator Start installs (and, say,
+     certificate rules): a verified certificate is not a password *)
+  Theorem C08_password_gate_any_transport : forall ss hs tl pw ops i c',
+    In (AClear [] pw) (ss_auths ss) -> cfg_get (ss_config ss) requirepass_key <> None ->
+    nth_error (ms_conns _ (mrun hstate handle regexp_src fw_text (msys_init_tls hstate ss hs tl) ops)) i = Some c' ->
+    ev_calls (rev (mc_evs c')) <> [] ->
+    exists req, In req (proc hstate handle regexp_src fw_text (msys_init_tls hstate ss hs tl) ops i) /\ exact_auth pw req.
+  Proof. exact (password_gate_any_transport hstate handle regexp_src fw_text). Qed.
 End C08.
+Print Assumptions C08_password_gate_any_transport.
 Print Assumptions C08_password_gate.
 Print Assumptions C08_auth_exact.
 Print Assumptions C08_auth_effect.
@@ -61,3 +72,16 @@ Example C08_ex :
   map (fun c => (cs_auth (mc_cs c), length (ev_calls (rev (mc_evs c))))) (ms_conns _ m) = [(false, 0%nat); (true, 1%nat)]
   /\ pw_server ss (B"secret") /\ cs_auth (initial_cstate ss None) = false.
 Proof. vm_compute. auto. Qed.
+
+(* non-vacuity for the transport-independent gate: password + certificate rule; a plain connection, a TLS connection whose
+   certificate satisfies the rule, a TLS connection without certificate; only the one that presents the password gets a call *)
+Example C08_ex_tls :
+  let h := fun (s : unit) (_ : Z) (_ : hcall) => (s, hr_ok ok_msg) in
+  let q n := RArr (map (fun s => RBulk (Some s)) n) in
+  let ss := {| ss_config := [(B"requirepass", B"secret")]; ss_auths := [AClear [] (B"secret"); ACert (B"trusted")]; ss_app := [] |} in
+  let ops := [MReq 0 (q [B"GET"; B"k"]); MReq 1 (q [B"GET"; B"k"]); MReq 2 (q [B"GET"; B"k"]); MReq 1 (q [B"AUTH"; B"secret"]); MReq 1 (q [B"GET"; B"k"]);
+              MReq 0 (q [B"AUTH"; B"secret"]); MReq 0 (q [B"GET"; B"k"])] in
+  let m := mrun unit h (fun p => p) (fun _ _ => B"ERR") (msys_init_tls unit ss tt [None; Some [B"trusted"]; Some []]) ops in
+  map (fun c => (cs_auth (mc_cs c), length (ev_calls (rev (mc_evs c))))) (ms_conns _ m) = [(false, 0%nat); (true, 1%nat); (false, 0%nat)]
+  /\ In (AClear [] (B"secret")) (ss_auths ss) /\ cfg_get (ss_config ss) requirepass_key <> None.
+Proof. vm_compute. repeat split; auto. discriminate. Qed.
